@@ -83,6 +83,7 @@ class Sched:
         # plain PCT would let it starve the script for ever)
         self.fairness = self.rng.choice([8, 20, 50, 120])
         self.passed = {}
+        self.evaluating = 0       # >0 while a blocked thread's predicate runs
         self.quantum = self.rng.choice([3, 10, 30])
         self.forced = None        # [thread, remaining picks]
         self.locations = {}       # yield location -> count (coverage)
@@ -112,7 +113,14 @@ class Sched:
             if t.state == 'ready':
                 out.append(t)
             elif t.state == 'blocked':
-                if t.pred():
+                # a predicate may call instrumented code (Agent.is_running,
+                # JobControl.has_jobs): no yield points while it is evaluated
+                self.evaluating += 1
+                try:
+                    holds = t.pred()
+                finally:
+                    self.evaluating -= 1
+                if holds:
                     out.append(t)
                 elif t.timeout_at is not None and t.timeout_at <= self.vnow:
                     out.append(t)
@@ -146,7 +154,7 @@ class Sched:
     def switch(self, loc=''):
         """called by the baton holder at a yield point"""
         me = self.me()
-        if me is None:
+        if me is None or self.evaluating:
             return
         if self.aborting:
             raise SchedAbort()
@@ -178,8 +186,11 @@ class Sched:
                 dt = max(self.vnow, nxt) - self.vnow
                 if dt > 0:
                     for t in self.order:
+                        # (waiting for a lock is waiting for its owner to be
+                        # scheduled, which time does not decide)
                         if not t.done and (t.state == 'sleep' or (
-                                t.state == 'blocked' and t not in cands)):
+                                t.state == 'blocked' and t not in cands
+                                and t.what != 'lock')):
                             t.blocked_time += dt
                 self.vnow = max(self.vnow, nxt)
                 for t in timers:
@@ -229,7 +240,11 @@ class Sched:
             self.switch('block:' + what)
         finally:
             me.state, me.pred, me.what = 'ready', None, ''
-            timed_out = me.timeout_at is not None and not pred()
+            self.evaluating += 1
+            try:
+                timed_out = me.timeout_at is not None and not pred()
+            finally:
+                self.evaluating -= 1
             me.timeout_at = None
         return not timed_out
 
